@@ -173,3 +173,170 @@ def check_async_glue(chk, ix):
                              "timeout is given" % fn.name, file=m.relpath, line=fn.lineno, stmt="def " + fn.name))
     if sites < 1:
         raise AnalysisError("anchor missing: no asyncio.wait() site found in behave.api.async_step")
+
+
+WHAT["RF6"] = "no iterator object is used as a truth value (an iterator is always true: 'if not self.all_steps' can never detect 'no steps')"
+
+_RF6_CONTROL = '''
+import itertools
+class Box(object):
+    def iter_items(self):
+        return itertools.chain(self.a, self.b)
+    @property
+    def all_items(self):
+        return self.iter_items()
+    def is_empty(self):
+        if not self.all_items:
+            return True
+        return False
+'''
+
+
+def _iterator_returning(funcs_by_class, module_funcs, resolve_call):
+    """fixpoint: functions / properties that always return an iterator object"""
+    ITER_CALLS = {"iter", "chain", "itertools.chain", "map", "filter", "zip", "reversed", "enumerate", "six.moves.map", "six.moves.filter",
+                  "six.moves.zip", "itertools.chain.from_iterable", "chain.from_iterable"}
+    result = set()
+    allf = list(module_funcs) + [f for fs in funcs_by_class.values() for f in fs]
+    changed = True
+    while changed:
+        changed = False
+        for key, node, cls in allf:
+            if key in result:
+                continue
+            own = [n for n in ast.walk(node) if not isinstance(n, (ast.FunctionDef, ast.AsyncFunctionDef, ast.Lambda)) or n is node]
+            # direct statements only (nested defs excluded)
+            rets = []
+            is_gen = False
+            stack = list(node.body)
+            while stack:
+                n = stack.pop()
+                if isinstance(n, (ast.FunctionDef, ast.AsyncFunctionDef, ast.Lambda, ast.ClassDef)):
+                    continue
+                if isinstance(n, (ast.Yield, ast.YieldFrom)):
+                    is_gen = True
+                if isinstance(n, ast.Return):
+                    rets.append(n.value)
+                stack.extend(ast.iter_child_nodes(n))
+            ok = is_gen
+            if not ok and rets and all(r is not None for r in rets):
+                ok = True
+                for r in rets:
+                    if isinstance(r, ast.GeneratorExp):
+                        continue
+                    if isinstance(r, ast.Call):
+                        fn = unparse(r.func)
+                        if fn in ITER_CALLS:
+                            continue
+                        tgt = resolve_call(r, cls)
+                        if tgt is not None and tgt in result:
+                            continue
+                    ok = False
+                    break
+            if ok:
+                result.add(key)
+                changed = True
+    return result
+
+
+def _truth_positions(tree):
+    """expressions evaluated for their truth value"""
+    out = []
+    for n in ast.walk(tree):
+        if isinstance(n, (ast.If, ast.While, ast.IfExp, ast.Assert)):
+            out.append(n.test)
+        elif isinstance(n, ast.UnaryOp) and isinstance(n.op, ast.Not):
+            out.append(n.operand)
+        elif isinstance(n, ast.BoolOp):
+            out.extend(n.values[:-1] if False else n.values)
+        elif isinstance(n, ast.comprehension):
+            out.extend(n.ifs)
+    return out
+
+
+def _rf6_scan(tree, class_of_node):
+    """-> list of (lineno, text) for the given module tree; class_of_node(node) -> ClassDef node or None"""
+    classes = {}
+    module_funcs = []
+    funcs_by_class = {}
+    for n in tree.body:
+        if isinstance(n, ast.ClassDef):
+            classes[n.name] = n
+    bases = {name: [unparse(b).split(".")[-1] for b in c.bases] for name, c in classes.items()}
+
+    def mro(name, seen=None):
+        seen = seen or []
+        if name in seen or name not in classes:
+            return seen
+        seen.append(name)
+        for b in bases.get(name, []):
+            mro(b, seen)
+        return seen
+
+    def lookup(cname, attr):
+        for c in mro(cname):
+            for m in classes[c].body:
+                if isinstance(m, (ast.FunctionDef, ast.AsyncFunctionDef)) and m.name == attr:
+                    return (c, attr)
+        return None
+    for n in tree.body:
+        if isinstance(n, (ast.FunctionDef, ast.AsyncFunctionDef)):
+            module_funcs.append(((None, n.name), n, None))
+    for cname, c in classes.items():
+        for m in c.body:
+            if isinstance(m, (ast.FunctionDef, ast.AsyncFunctionDef)):
+                funcs_by_class.setdefault(cname, []).append(((cname, m.name), m, cname))
+
+    def resolve_call(call, cls):
+        f = call.func
+        if isinstance(f, ast.Attribute) and isinstance(f.value, ast.Name) and f.value.id in ("self", "cls") and cls is not None:
+            return lookup(cls, f.attr)
+        if isinstance(f, ast.Name):
+            return (None, f.id)
+        return None
+    iters = _iterator_returning(funcs_by_class, module_funcs, resolve_call)
+    props = set()
+    for cname, c in classes.items():
+        for m in c.body:
+            if isinstance(m, ast.FunctionDef) and any(unparse(d) == "property" for d in m.decorator_list):
+                props.add((cname, m.name))
+    hits = []
+    for cname, c in list(classes.items()) + [(None, tree)]:
+        scope_nodes = c.body if cname else [n for n in tree.body if not isinstance(n, ast.ClassDef)]
+        for stmt in scope_nodes:
+            for e in _truth_positions(stmt) if not isinstance(stmt, ast.ClassDef) else []:
+                tgt = None
+                if isinstance(e, ast.Attribute) and isinstance(e.value, ast.Name) and e.value.id == "self" and cname:
+                    t = lookup(cname, e.attr)
+                    if t in props and t in iters:
+                        tgt = "%s.%s (a property returning an iterator)" % t
+                elif isinstance(e, ast.Call):
+                    t = resolve_call(e, cname)
+                    if t in iters:
+                        tgt = "%s()" % (".".join(x for x in t if x))
+                    elif unparse(e.func) in ("iter", "chain", "itertools.chain", "map", "filter", "zip", "reversed"):
+                        tgt = unparse(e.func) + "(...)"
+                elif isinstance(e, ast.GeneratorExp):
+                    tgt = "a generator expression"
+                if tgt:
+                    hits.append((e.lineno, unparse(e), tgt))
+    return hits
+
+
+def check_iterator_truth(chk, ix, rule="RF6"):
+    chk.rule(rule, WHAT["RF6"])
+    if not _rf6_scan(ast.parse(_RF6_CONTROL), None):
+        raise AnalysisError("RF6 self-test: the positive control is not reported")
+    n = 0
+    for m in sorted(ix.modules.values(), key=lambda m_: m_.name):
+        n += 1
+        chk.instance(rule)
+        hits = _rf6_scan(m.tree, None)
+        if not hits:
+            chk.ok(rule, {"module": m.name, "iterators used as truth values": 0}, nontrivial_key=m.name)
+        for (line, text, tgt) in hits:
+            chk.fail(Finding(rule, "%s:<line %d>" % (m.name, line), "truth value of %s" % text,
+                             "%s is used as a truth value at %s:%d, but it is %s: an iterator object is always true, so the test can never "
+                             "see an empty sequence" % (text, m.relpath, line, tgt), file=m.relpath, line=line, stmt=text))
+    if n < 30:
+        raise AnalysisError("RF6: only %d modules scanned" % n)
